@@ -163,7 +163,7 @@ def adam(f, x, learning_rate=1e-3, beta1=0.9, beta2=0.999, eps=1e-8,
     v = grad.domain.zero()
 
     grad_x = grad.range.element()
-    for _ in range(maxiter):
+    for t in range(1, maxiter + 1):
         grad(x, out=grad_x)
 
         if grad_x.norm() < tol:
@@ -172,7 +172,8 @@ def adam(f, x, learning_rate=1e-3, beta1=0.9, beta2=0.999, eps=1e-8,
         m.lincomb(beta1, m, 1 - beta1, grad_x)
         v.lincomb(beta2, v, 1 - beta2, grad_x ** 2)
 
-        step = learning_rate * np.sqrt(1 - beta2) / (1 - beta1)
+        # Bias-corrected step length, see [KB2015], end of section 2
+        step = learning_rate * np.sqrt(1 - beta2 ** t) / (1 - beta1 ** t)
 
         x.lincomb(1, x, -step, m / (np.sqrt(v) + eps))
 
